@@ -160,8 +160,8 @@ def r02d(ctx):
                        f"_get_element_idx2 disagree")
     # elements_repeated_sequence clamps below at 1 and enumerates in document order
     f = repo.func("Element.elements_repeated_sequence")
-    src = ast.unparse(f.node)
-    ok = "max(int_value, 1)" in src and "idx += 1" in src
+    from ..shape import has
+    ok = has(f.node, "R_.append((I_, max(V_, 1)))") and has(f.node, "I_ += 1") and has(f.node, "R_.append((I_, 1))")
     ctx.instance("R02d", f"{f.file}:{f.ident}", "repeat values are clamped to >= 1 and indexed in document order", ok=ok)
     if not ok:
         ctx.report("R02d", f, f.node, "elements_repeated_sequence", "repeat values are no longer clamped to at least 1 / indexed consecutively")
